@@ -7,8 +7,24 @@ from .util import from_jsonable, headroom
 F = env.F
 
 
+def main_compile(sources):
+    P = env.P
+    out = []
+    for src in sources:
+        try:
+            b = P.compile_script(src)
+            out.append(b.hex() if isinstance(b, bytes) else repr(b))
+        except BaseException as e:  # noqa
+            if isinstance(e, (KeyboardInterrupt, SystemExit)):
+                raise
+            out.append('raised')
+    print(json.dumps({'optimised': not __debug__, 'verdicts': out}))
+
+
 def main():
     cases = from_jsonable(json.load(open(sys.argv[1])))
+    if isinstance(cases, dict) and cases.get('mode') == 'compile':
+        return main_compile(cases['sources'])
     out = []
     for c in cases:
         env.pin_clock(1_700_000_000)
